@@ -10,4 +10,5 @@ globals().update(build('C11', 'Merging is associative, order-insensitive and nev
     'harness.agg.classification',
     'harness.agg.retrieval',
     'harness.agg.text',
+    'harness.agg.generated',   # translate/scalar.py: generated scalar definitions (self-check + theorems)
 ]))
